@@ -100,7 +100,9 @@ def main():
     shimlib.load_staged_findings(chk, "C14")
     rng = chk.rng
     vlib.sh("python3 %s/translate/tr_flushproto.py" % vlib.VERIF)
-    proved = chk.prove("Properties_C14", extra_targets=["Gen/FlushShape.vo"])
+    rc, tout = vlib.sh("python3 %s/translate/tr_replace.py" % vlib.VERIF)
+    trans_problems = [l for l in tout.splitlines() if l.startswith("PROBLEM")]
+    proved = chk.prove("Properties_C14", extra_targets=["Gen/FlushShape.vo", "Gen/ReplaceShape.vo"])
     try:
         cl = "fdopen_cleans : bool := true" in open(os.path.join(vlib.COQ, "Gen", "FlushShape.v")).read()
     except OSError:
@@ -108,7 +110,7 @@ def main():
     chk.cov["trusted_base"] += [
         "Coq 8.16.1 kernel; vm_compute for the refutation witness",
         "abstract filesystem coq/C12/Fs.v and its assumptions (atomic rename/O_EXCL, page cache survives a kill)",
-        "coq/C14/ReplaceProto.v is hand-written from encoding.c/endian.c/flimits.c/move.c/open.c; tied to the code by the trace and state comparison below (no translator)",
+        "coq/C14/ReplaceProto.v is hand-written from encoding.c/endian.c/flimits.c/move.c/open.c; translate/tr_replace.py checks at every run that the three drivers, _GD_MoveOver, _GD_FiniRawIO and _GD_MogrifyFile still have the two-phase shape; the model is further tied to the code by the trace and state comparison below",
         "harness/C12/shim.c (ptrace supervisor), harness/C14/rep.c, ocaml/C14/driver.ml (ExtrOcamlBasic extraction)",
         "reads of the old data file are not part of the model (they do not change the filesystem); their failures are judged by the property text only",
     ]
@@ -157,7 +159,9 @@ def main():
         r = dict(sc.desc()); r.update(extra); r["kind"] = "impl-vs-spec"
         spec_bad.append((key, desc, r))
 
-    def coarse(opn, callname, symptom, sc=None):
+    def coarse(opn, callname, symptom, sc=None, call=None):
+        if symptom == "crash" and callname == "close" and call is not None and not is_data_tmp(call.p1) and not call.p1.endswith((".gz", ".bz2", ".xz")):
+            return "raw/close-failure/stale-descriptor-closed-again/crash"
         if sc is not None and opn == "enc" and "bzip2" in sc.op and callname in ("write", "close") and symptom in ("debris", "crash"):
             return "bzip2-target/temp-file-write-or-close-failure/%s" % symptom
         if opn == "put":
@@ -242,6 +246,8 @@ def main():
                 t = "creat:%s:%s" % (T(c.p1), st)
             elif c.name == "write" and tmp:
                 t = "write"
+            elif c.name == "fcntl" and tmp and is_data_tmp(c.p1):
+                continue                               # fdopen of a bzip2/lzma temporary file: no effect on the filesystem
             elif c.name == "fcntl" and tmp:
                 t = "fcntl:%s" % st
             elif c.name == "fchmod" and tmp:
@@ -407,7 +413,7 @@ def main():
         debris = sorted(r for r in tr if is_data_tmp(r))
         if rc != 0 or not h["ops"]:
             counts["outcomes"]["crash"] = counts["outcomes"].get("crash", 0) + 1
-            spec_fail(sc, coarse(opn, call.name, "crash", sc), "%s with %s at call %d (%s %s): the process died or hung (rc %d): %s" % (
+            spec_fail(sc, coarse(opn, call.name, "crash", sc, call), "%s with %s at call %d (%s %s): the process died or hung (rc %d): %s" % (
                 sc.ops, en, k, call.name, call.p1, rc, raw[-200:]), extra)
             continue
         o = h["ops"][0]
@@ -557,7 +563,10 @@ def main():
             continue
         seen.add(key)
         chk.violation(key, "correspondence broken: " + desc, rep, found=False)
-    if not proved and not found_any:
+    if trans_problems and not found_any:
+        chk.violation("translator", "translator no longer recognises the two-phase replace protocol: " + "; ".join(trans_problems[:3]),
+                      {"kind": "translator", "problems": trans_problems, "theorem": "replace_shape_recognised"}, found=False)
+    if not proved and not found_any and not trans_problems:
         chk.violation("proof", "Properties_C14 does not check: " + getattr(chk, "proof_log", "")[-1200:],
                       {"kind": "proof", "theorem": "Properties_C14", "log": getattr(chk, "proof_log", "")[-4000:]}, found=False)
     return chk.finish()
